@@ -43,6 +43,7 @@ def cases(tier):
         for i in range(len(sp)):
             yield {"kind": "approx-row", "grid": gi, "i": i}
     yield {"kind": "far-grid"}
+    yield {"kind": "p-types"}
     n = 2 if tier == "quick" else 3
     dg = [[list(map(float, b)) for b in m] for m in multisets_upto(bars(4), n, min_size=1)]
     for i in range(len(dg)):
@@ -183,6 +184,21 @@ def run_case(case, ctx):
             check_norms(ctx, D, lsops.approx_ref(D), "grid", {"grid": grid, "A": sa, "B": sb, "op": "A-B"})
             E = ctx.call(lambda: 2 * A - B)
             check_norms(ctx, E, lsops.approx_ref(E), "grid", {"grid": grid, "A": sa, "B": sb, "op": "2A-B"})
+    elif kind == "p-types":
+        # the exponent given as a NumPy scalar of a narrow type (p + 1 must not wrap, p must not lose digits)
+        from persim import PersLandscapeApprox, PersLandscapeExact
+
+        E = PersLandscapeExact(dgms=[np.array([[0.0, 6.0], [1.0, 4.0], [2.0, 7.0]])], hom_deg=0)
+        G = PersLandscapeApprox(values=np.array([[0.0, 1.0, 2.5, 1.0, 0.0], [0.0, 0.0, 1.0, 0.0, 0.0]]), start=0.0, stop=4.0, num_steps=5, hom_deg=0)
+        for pl, what, fs in ((E, "exact", lsops.exact_ref(E)), (G, "grid", lsops.approx_ref(G))):
+            for pv in (np.int8(127), np.int8(3), np.uint8(2), np.float16(3.0), np.float32(2.5), np.int64(4)):
+                ctx.state(("p-type", what, repr(pv)))
+                v = ctx.call(pl.p_norm, pv)
+                ref = P.p_norm(fs, float(pv))
+                ctx.valid()
+                if not (is_num(v) and np.isfinite(v) and abs(float(v) - ref) <= 1e-9 * ref):
+                    ctx.violation("p-norm-%s" % what, "p_norm(p=%r) is not the p-th root of the integral of |f|^p" % (pv,), observed=v if is_num(v) else repr(v), expected=ref, extra={"p": repr(pv)})
+        ctx.nontriv("exponent_as_numpy_scalar")
     elif kind == "far-grid":
         # grid landscapes far from the origin relative to their node spacing (timestamp-like filtration values):
         # the nodes np.linspace produces are not equally spaced to the last bit; the norm is the integral over
